@@ -881,6 +881,22 @@ static void mode_legacy(fm_t* m, fm_t* m2, uint64_t* nontrivial)
 }
 
 /* ================================================================== mode: views (C17) */
+/* unrelated traffic on another buffer / format between the paired operations (a receiver handles other PDUs in between):
+ * a result that depends on which descriptor table or field was used last shows up in the paired comparison */
+static fm_t g_m3;
+static void views_noise(vp_ctx_t* c)
+{
+    fm_t* m3 = &g_m3;
+    uint64_t r = vp_rng_next(&c->rng);
+    if ((r & 3) == 0) return;
+    const vp_format_t* f = vp_formats[(r >> 8) % vp_nformats];
+    const vp_field_t* fld = &f->fields[(r >> 16) % f->nfields];
+    m3->f = f;
+    if (r & 4) { (void)do_get(m3, fld, (fld->dget && (r & 8)) ? P_DEDICATED : P_GENERIC); }
+    else { uint64_t v = vp_rng_next(&c->rng); bf_set(SH(m3), fld->pos, fld->width, v & bf_mask(fld->width)); do_set(m3, fld, (fld->dset && (r & 8)) ? P_DEDICATED : P_GENERIC, v); }
+    if ((r & 0x30) == 0) { const vp_field_t* g2 = &f->fields[(r >> 24) % f->nfields]; (void)do_get(m3, g2, P_GENERIC); }
+}
+
 static void mode_views(fm_t* m, fm_t* m2, const char* filter, uint64_t* nontrivial)
 {
     vp_ctx_t* c = m->c;
@@ -905,7 +921,10 @@ static void mode_views(fm_t* m, fm_t* m2, const char* filter, uint64_t* nontrivi
                     fm_load(m, hdr, n); fm_load(m2, hdr, n);
                     m->f = A; m2->f = B;
                     /* read through both views */
-                    uint64_t va = do_get(m, fa, pa), vb = do_get(m2, fb, pb);
+                    views_noise(c);
+                    uint64_t va = do_get(m, fa, pa);
+                    views_noise(c);
+                    uint64_t vb = do_get(m2, fb, pb);
                     c->evals++;
                     vp_tr_u64(c, va);
                     if (va) seen_nonzero++;
@@ -916,7 +935,10 @@ static void mode_views(fm_t* m, fm_t* m2, const char* filter, uint64_t* nontrivi
                     uint64_t v = vp_value_class(&c->rng, (uint32_t)r, fa->width);
                     uint64_t mv = v & bf_mask(fa->width);
                     bf_set(SH(m), fa->pos, fa->width, mv); bf_set(SH(m2), fb->pos, fb->width, mv);
-                    do_set(m, fa, pa, v); do_set(m2, fb, pb, v);
+                    views_noise(c);
+                    do_set(m, fa, pa, v);
+                    views_noise(c);
+                    do_set(m2, fb, pb, v);
                     c->evals++;
                     vp_tr_bytes(c, PDU(m), n);
                     if (memcmp(PDU(m), PDU(m2), n) != 0 && vp_viol(c, "views", pairname, path_names[pa], path_names[pb], "write-differs", 0)) {
@@ -930,6 +952,7 @@ static void mode_views(fm_t* m, fm_t* m2, const char* filter, uint64_t* nontrivi
                     fm_check(m2, "views", pairname, "write-b", B->spec_bytes, v, 1);
                     /* write via A, read via B on the same buffer */
                     m->f = B;
+                    views_noise(c);
                     uint64_t back = do_get(m, fb, pb);
                     c->evals++;
                     if (back != mv && vp_viol(c, "views", pairname, path_names[pa], path_names[pb], "write-a-read-b", 0)) {
@@ -939,6 +962,11 @@ static void mode_views(fm_t* m, fm_t* m2, const char* filter, uint64_t* nontrivi
             }
         }
         if (seen_nonzero) (*nontrivial)++;
+    }
+    {   /* the noise buffer itself is judged too */
+        size_t o1, c1, l1;
+        c->evals++;
+        if (vp_arena_diff(c, &g_m3.a, &o1, &c1, &l1)) { if (vp_viol(c, "views", "noise-buffer", "bytes-differ-from-model", 0, 0, 0)) { o_s(c, "{}"); o_end(c); } vp_arena_resync(&g_m3.a); }
     }
     m->f = 0; m2->f = 0;
 }
@@ -1252,7 +1280,7 @@ int main(void)
     vp_ctx_init(c, seed, 0x1000 + (uint64_t)mode[0] * 131);
     c->tdump = (int)vp_cfg_u64("DUMP", 0);
     fm_t m, m2;
-    fm_new(&m, c); fm_new(&m2, c);
+    fm_new(&m, c); fm_new(&m2, c); fm_new(&g_m3, c);
     uint64_t nontrivial = 0;
 
     o_s(c, "BEGIN|fieldmon|"); o_s(c, mode); o_s(c, "|"); o_s(c, formats); o_s(c, "|seed="); o_u(c, seed); o_s(c, "|place="); o_u(c, g_place); o_end(c);
